@@ -9,3 +9,4 @@ import ServlinVerif.Spec.ErrorClasses
 import ServlinVerif.Gen.C20Tables
 import ServlinVerif.Props.C14
 import ServlinVerif.Props.C20
+import ServlinVerif.Props.C16
